@@ -128,12 +128,59 @@ func ruleR25(p *Prog) []Ob {
 			if !okEq {
 				bad = append(bad, p.at(rt)+": the copy is skipped without the two sizes having been compared equal")
 			}
+			// where the copy carries the source's modification time over to its destination (so that
+			// the next run can recognise an up-to-date copy) the skip also compares the two times: a
+			// segment rewritten in place, and any index file, can change content at the same size
+			carries := false
+			for _, b := range cp.Blocks {
+				for _, ins := range b.Instrs {
+					if c, ok := ins.(*ssa.Call); ok && calleeName(c.Common()) == "os.Chtimes" {
+						carries = true
+					}
+				}
+			}
+			if carries {
+				isModTime := func(v ssa.Value) bool {
+					c, ok := canon(v).(*ssa.Call)
+					return ok && c.Common().IsInvoke() && c.Common().Method.Name() == "ModTime"
+				}
+				okT := false
+				for _, hb := range cp.Blocks {
+					iff, isIf := terminator(hb).(*ssa.If)
+					if !isIf {
+						continue
+					}
+					neg := false
+					cond := iff.Cond
+					for {
+						u, ok := cond.(*ssa.UnOp)
+						if !ok || u.Op != token.NOT {
+							break
+						}
+						neg, cond = !neg, u.X
+					}
+					c, ok := cond.(*ssa.Call)
+					if !ok || calleeName(c.Common()) != "(time.Time).Equal" || len(c.Call.Args) != 2 || !isModTime(c.Call.Args[0]) || !isModTime(c.Call.Args[1]) {
+						continue
+					}
+					e := 0
+					if neg {
+						e = 1
+					}
+					if edgeDominates(hb, e, rt.Block()) {
+						okT = true
+					}
+				}
+				if !okT {
+					bad = append(bad, p.at(rt)+": the copy is skipped without the two modification times having been compared equal, although the copy carries the source's time over for exactly that comparison")
+				}
+			}
 		}
 		switch {
 		case len(copies) == 0:
 			ob.Status, ob.Msg = Undecided, "no io.Copy in the copy function"
 		case len(bad) > 0:
-			ob.Status, ob.Msg, ob.Path = Violated, "an existing destination can be taken for up to date although it is shorter or longer than the source (a head segment appended to since the previous backup stays stale)", bad
+			ob.Status, ob.Msg, ob.Path = Violated, "an existing destination can be taken for up to date although it differs from the source (a head segment appended to since the previous backup, or an index / a rewritten segment of unchanged size, stays stale)", bad
 		default:
 			ob.Status, ob.Msg = Discharged, fmt.Sprintf("%d skip return(s), each only where source and destination have the same size", skips)
 		}
